@@ -10,7 +10,7 @@ CFG = dict(
     harness_timeout=2400,
     trusted=COMMON_TRUSTED + ["reference = the value of the same use before the first cancellation, in the same session",
                               "hand-written model Cancel/Model.v of the run-id gate (shared with C09); histories are compiled to actions of that machine in Cancel/Cases.v (y_hist)"],
-    level_text="Coq theorems about the run-id gate machine shared with C09: for all histories of redefinitions, uses and cancelled evaluations (busy loop, blocked goroutines, expired context in either order of the race), every use of a named function, a method or a method value through a later Eval or EvalWithContext yields what it yielded before (C10_named_partial, induction over histories), and for all program tables every use of functions of the basic fragment performs exactly the operations of the generation-free loop G in every reachable state (C10_named_programs); refutation witnesses for function literals stored in variables (dead for ever), host-held function values between the cancellation and the next Execute, and channel operations through a plain Eval after a cancellation. Tied to the code on every run by seeded histories executed on real yaegi (cancellation placed with the step hook) whose per-use results are compared, inside Coq, with the model's and with the pre-cancellation values.",
+    level_text="Coq theorems about the run-id gate machine shared with C09: for all histories of redefinitions, uses and cancelled evaluations (busy loop, blocked goroutines, expired context in either order of the race), every use of a named function, a method or a method value through a later Eval or EvalWithContext yields what it yielded before (C10_named_partial, induction over histories), and for all program tables every use of functions of the basic fragment performs exactly the operations of the generation-free loop G in every reachable state (C10_named_programs); the per-statement generated state is execution-independent (C10_generated_state_independent; the alternative, a cancellation case captured at a statement's first execution, is shown to break every later execution); refutation witnesses for function literals stored in variables (dead for ever), host-held function values between the cancellation and the next Execute, and channel operations through a plain Eval after a cancellation. Tied to the code on every run by seeded histories (definition bodies: arithmetic, channel rendez-vous through send / receive / two-value receive / range / select with the partner held back by the host, mutex and WaitGroup, calls of other definitions, function literals created inside the call; cold sessions in which a definition is first executed by the history, possibly inside the evaluation that is cancelled) executed on real yaegi (cancellation placed with the step hook) whose per-use results are compared, inside Coq, with the model's and with the pre-cancellation values.",
     level_note="Trusted: Coq kernel + vm_compute, no axioms; harness. The model predicts the defective results (zero values) exactly, so any other deviation is an alarm.",
     technique="Coq proof by induction over histories + simulation of the gate machine by a generation-free machine + model/implementation correspondence on seeded histories evaluated in Coq",
     assumptions=["the race of an already expired context is resolved by observation (whether the evaluation executed an operation) and both orders are modelled",
